@@ -221,6 +221,11 @@ fn attrs_text(case: &Case) -> String {
         .filter_map(|(n, a)| match a {
             Attr::Int(v) => Some(format!("{n}={v}")),
             Attr::Ints(v) => Some(format!("{n}={}", hcommon::join(v.iter(), ":"))),
+            Attr::Tensor(t) => match (&t.data, t.dtype) {
+                (onnx_enc::TensorData::Raw(b), 7) if b.len() == 8 => Some(format!("{n}={}", i64::from_le_bytes(b[..8].try_into().unwrap()))),
+                (onnx_enc::TensorData::Raw(b), 6) if b.len() == 4 => Some(format!("{n}={}", i32::from_le_bytes(b[..4].try_into().unwrap()))),
+                _ => None,
+            },
             _ => None,
         })
         .collect();
@@ -286,6 +291,12 @@ fn contradiction(inferred: &SymTensor, sg: &Sigma, out: &Value) -> Option<String
     }
     None
 }
+
+/// Operators whose reference execution semantics exists in `Model/ShapeExec.lean`.
+const EXEC_KEYS: &[&str] = &[
+    "Add", "Sub", "Mul", "Div", "Equal", "Where", "Shape", "Size", "Gather", "Concat", "Unsqueeze", "Squeeze", "Transpose",
+    "Expand", "ConstantOfShape", "Neg", "Identity",
+];
 
 struct Ctx {
     out: Out,
@@ -380,6 +391,164 @@ fn one_case_focus(cx: &mut Ctx, rng: &mut Rng, case: &Case, sym_prob: u64, focus
     cx.out.bucket(&format!("op:{}", case.key));
     let nontrivial = matches!((&inferred, &executed), (Ok(Ok(_)), Ok(Ok(_)))) && !sg.syms.is_empty();
     cx.out.case(&req, &ans, fail.as_deref(), nontrivial);
+    // `exec` line: the real kernel's output on the concrete inputs, diffed with the Lean reference
+    // semantics that the T1 theorems are stated against.
+    if let Ok(Ok(outs)) = &executed {
+        if EXEC_KEYS.contains(&case.key.as_str()) && case.n_out == 1 {
+            let conc_in = |i: &Inp| -> (String, bool) {
+                let valued = i.seq.is_none() && i.dt != Dt::F32 && i.shape.len() <= 1;
+                if valued {
+                    let vals = hcommon::join(i.vals.iter().map(|v| format!("{}", *v as i64)), ",");
+                    (if i.shape.is_empty() { format!("S({vals})") } else { format!("V({vals})") }, true)
+                } else {
+                    (format!("H({})", hcommon::join(i.shape.iter(), ",")), false)
+                }
+            };
+            let ins: Vec<(String, bool)> =
+                case.inputs.iter().map(|i| i.as_ref().map(conc_in).unwrap_or(("_".to_string(), true))).collect();
+            let all_valued = ins.iter().all(|(_, v)| *v);
+            let always = matches!(case.key.as_str(), "Shape" | "Size" | "ConstantOfShape");
+            let never = matches!(case.key.as_str(), "Expand" | "Transpose");
+            let (shape, vals) = concrete(&outs[0]);
+            let int_out = !matches!(outs[0], Value::FloatTensor(_));
+            let out_text = match (&vals, shape.len()) {
+                (Some(v), r) if r <= 1 && int_out && !never && (always || all_valued) => {
+                    let t = hcommon::join(v.iter(), ",");
+                    if r == 0 { format!("S({t})") } else { format!("V({t})") }
+                }
+                _ => format!("H({})", hcommon::join(shape.iter(), ",")),
+            };
+            let ereq = format!("exec {} {} | {}", case.key, attrs_text(case), hcommon::join(ins.iter().map(|(t, _)| t.clone()), " | "));
+            cx.out.bucket("exec_lines");
+            cx.out.case(&ereq, &format!("ok {out_text}"), None, true);
+        }
+    }
+}
+
+/// Whole-graph inference (audit M3): a shape-computation subgraph on an input `x : [b, 4]` with a
+/// symbolic batch dimension goes through the real graph driver `infer_shapes` (per-node
+/// `sym_tensor_from_input`, `replace_complex_expressions`, `simplify`, constant extraction) and is
+/// then executed for a concrete `b`. Every inferred constant, rank, fixed dimension and plain-symbol
+/// dimension must match the executed value. The Lean model does not cover the graph driver
+/// (`simplify` is C11's subject): the line is answered `skip`, the oracle is what counts.
+fn graph_case(cx: &mut Ctx, rng: &mut Rng) {
+    use onnx_enc::{Dim, Graph, Node, Tensor as OT, ValueInfo};
+    let b = *rng.pick(&[1usize, 1, 2, 3, 5, 0]);
+    let k = *rng.pick(&[0i64, 1, 2, 3, 4, 5]);
+    let c1 = rng.range_i64(-3, 3);
+    let mut nodes = vec![
+        Node::new("Shape", "n_s", &["x"], &["s"]),
+        Node::new("Gather", "n_g", &["s", "i0"], &["g"]).attr("axis", Attr::Int(0)),
+        Node::new("Gather", "n_h", &["s", "i1"], &["h"]).attr("axis", Attr::Int(0)),
+        Node::new("Mul", "n_m", &["g", "h"], &["m"]),
+        Node::new("Add", "n_a", &["g", "c1"], &["a"]),
+        Node::new("Unsqueeze", "n_u", &["m", "ax0"], &["u"]),
+        Node::new("Concat", "n_c", &["u", "s"], &["c"]).attr("axis", Attr::Int(0)),
+        Node::new("Equal", "n_e", &["g", "k"], &["e"]),
+        Node::new("Where", "n_w", &["e", "a", "m"], &["w"]),
+        Node::new("Sub", "n_d", &["m", "g"], &["d"]),
+        Node::new("Neg", "n_n", &["d"], &["nd"]),
+        Node::new("Size", "n_z", &["x"], &["z"]),
+    ];
+    let mut outs = vec!["s", "g", "h", "m", "a", "u", "c", "e", "w", "d", "nd", "z"];
+    if rng.chance(1, 2) {
+        nodes.push(Node::new("Unsqueeze", "n_hu", &["h", "ax0"], &["hu"]));
+        nodes.push(Node::new("Unsqueeze", "n_gu", &["g", "ax0"], &["gu"]));
+        nodes.push(Node::new("Concat", "n_r", &["hu", "gu"], &["r"]).attr("axis", Attr::Int(0)));
+        nodes.push(Node::new("Reshape", "n_y", &["x", "r"], &["y"]));
+        outs.extend(["r", "y"]);
+    }
+    if rng.chance(1, 2) {
+        nodes.push(Node::new("Range", "n_rg", &["zero", "g", "one"], &["rg"]));
+        nodes.push(Node::new("ConstantOfShape", "n_cs", &["u"], &["cs"]));
+        nodes.push(Node::new("Transpose", "n_t", &["x"], &["t"]));
+        outs.extend(["rg", "cs", "t"]);
+    }
+    let g = Graph {
+        nodes,
+        initializers: vec![
+            OT::i64s("i0", &[], &[0]),
+            OT::i64s("i1", &[], &[1]),
+            OT::i64s("c1", &[], &[c1]),
+            OT::i64s("k", &[], &[k]),
+            OT::i64s("ax0", &[1], &[0]),
+            OT::i64s("zero", &[], &[0]),
+            OT::i64s("one", &[], &[1]),
+        ],
+        inputs: vec![ValueInfo::new("x", 1, Some(vec![Dim::Sym("b".into()), Dim::Fixed(4)]))],
+        outputs: outs.iter().map(|n| ValueInfo::new(n, 0, None)).collect(),
+        ..Default::default()
+    };
+    let bytes = encode_model(&g);
+    let req = format!("graph b={b} k={k} c1={c1} outs={}", outs.join(","));
+    let res = hcommon::catch(|| {
+        let mut opts = rten::ModelOptions::with_all_ops();
+        opts.enable_optimization(false);
+        let model = opts.load(bytes).map_err(|e| format!("load: {e}"))?;
+        let infer = rten::verif::infer_shapes(model.verif_graph(), rten::verif::InferShapeOptions::default()).map_err(|e| format!("infer: {e}"))?;
+        let x = rten_tensor::Tensor::<f32>::zeros(&[b, 4]);
+        let ids: Vec<_> = outs.iter().map(|n| model.node_id(n).unwrap()).collect();
+        let run = model.run(vec![(model.node_id("x").unwrap(), x.view().into())], &ids, None).map_err(|e| format!("{e}"));
+        let mut dump = vec![];
+        let mut fail: Option<String> = None;
+        let mut claims = 0u64;
+        for (i, name) in outs.iter().enumerate() {
+            let Some(sh) = infer.shapes.get(&ids[i]) else {
+                dump.push(format!("{name}=?"));
+                continue;
+            };
+            let executed = run.as_ref().ok().map(|v| concrete(&v[i]));
+            match sh {
+                rten::verif::Shape::Constant { index } => {
+                    let c = &infer.constants[*index];
+                    dump.push(format!("{name}=const{:?}", c));
+                    if let Some((shape, Some(vals))) = &executed {
+                        claims += 1;
+                        let ok = c.ndim() == shape.len() && c.values().iter().map(|&v| v as i64).collect::<Vec<_>>() == *vals;
+                        if !ok && fail.is_none() {
+                            fail = Some(format!("value {name}: inferred constant {:?} but executed {:?} (shape {:?})", c, vals, shape));
+                        }
+                    }
+                }
+                rten::verif::Shape::Shape(dims) => {
+                    dump.push(format!("{name}=shape[{}]", hcommon::join(dims.iter().map(|d| format!("{d:?}")), ",")));
+                    if let Some((shape, _)) = &executed {
+                        claims += 1;
+                        if dims.len() != shape.len() && fail.is_none() {
+                            fail = Some(format!("value {name}: inferred rank {} but executed shape {:?}", dims.len(), shape));
+                        }
+                        for (d, &sz) in dims.iter().zip(shape.iter()) {
+                            let claimed = match d {
+                                rten::Dimension::Fixed(n) => Some(*n),
+                                rten::Dimension::Symbolic(s) if s == "b" => Some(b),
+                                _ => None,
+                            };
+                            if let Some(n) = claimed {
+                                if n != sz && fail.is_none() {
+                                    fail = Some(format!("value {name}: inferred dim {d:?} but executed shape {:?}", shape));
+                                }
+                            }
+                        }
+                    }
+                }
+            }
+        }
+        Ok::<_, String>((dump.join(" "), fail, claims, run.is_ok()))
+    });
+    match res {
+        Ok(Ok((dump, fail, claims, ran))) => {
+            cx.out.bucket(if ran { "graph_ran" } else { "graph_run_err" });
+            for _ in 0..claims {
+                cx.out.bucket("graph_claims_checked");
+            }
+            cx.out.case(&req, &dump.replace(['\n', '\t'], " "), fail.as_deref(), ran);
+        }
+        Ok(Err(e)) => {
+            cx.out.bucket("graph_load_or_infer_error");
+            cx.out.note(&format!("graph case error: {e}"));
+        }
+        Err(p) => cx.out.case(&req, &format!("panic {p}"), Some("graph-level inference or execution panicked"), false),
+    }
 }
 
 fn small_ints(rng: &mut Rng, n: usize) -> Vec<i64> {
@@ -553,6 +722,10 @@ fn run(args: &Args) {
             }
         };
         one_case_focus(&mut cx, &mut rng, &case, 50, Some(focus));
+    }
+    let greps = if args.thorough { 3000 } else { 300 };
+    for _ in 0..greps {
+        graph_case(&mut cx, &mut rng);
     }
     let names = |m: &BTreeMap<String, u64>| m.keys().cloned().collect::<Vec<_>>().join(" ");
     cx.out.note(&format!("operators with as_infer_shapes exercised ({}): {}", cx.with_infer.len(), names(&cx.with_infer)));
